@@ -173,7 +173,7 @@ func genSession14(c *Chooser) Session {
 	} else if c.Chance(1, 40) {
 		b = nil
 	}
-	s := Session{Sector: []int{8, 64, 512, 4096}[c.Int(4)], FileChunk: []int{0, 0, 0, 1, 7, 512}[c.Int(6)]}
+	s := Session{Sector: []int{8, 64, 512, 4096}[c.Int(4)], FileChunk: []int{0, 0, 0, 1, 7, 512}[c.Int(6)], StdoutTTY: c.Chance(1, 4)}
 	an, bn := "a.json", "b.json"
 	if iv.yaml {
 		an, bn = "a.yaml", "b.yaml"
@@ -208,6 +208,9 @@ func genSession14(c *Chooser) Session {
 		out := ""
 		if useO {
 			out = "out"
+			if c.Chance(1, 10) {
+				out = an // the output overwrites an input: everything is read before anything is written
+			}
 		}
 		s.Procs = []ProcSpec{diffProc(out, iv.format == "jd" && c.Chance(1, 4))}
 	case 1: // S4 round trip
@@ -219,6 +222,9 @@ func genSession14(c *Chooser) Session {
 		out2 := ""
 		if c.Chance(1, 3) {
 			out2 = "patched"
+			if c.Chance(1, 4) {
+				out2 = an // patch in place
+			}
 			fl = append(fl, flagSpec{"o", out2, true, false})
 		}
 		switch carrier {
@@ -264,6 +270,13 @@ func genSession14(c *Chooser) Session {
 		case "json2yaml", "yaml2json":
 			isY := t == "yaml2json"
 			s.Files = []File{{"doc", Blob(docText(c, a, isY))}}
+			if c.Chance(1, 6) {
+				for x := range fl {
+					if fl[x].name == "o" {
+						fl[x].value = "doc" // translate in place
+					}
+				}
+			}
 			p := ProcSpec{Bin: iv.bin}
 			if useStdin {
 				p.Argv = renderArgv(c, fl, nil)
